@@ -91,12 +91,7 @@ func (s *metricSchemaStore) genFieldID(id metric.ID, f field.Meta, limits *model
 	s.lock.Lock()
 	defer s.lock.Unlock()
 
-	if schema == nil {
-		// create new schema
-		schema = &metric.Schema{}
-	}
-	// put into schema if schema not exist under mutable store
-	s.mutable.PutIfNotExist(uint32(id), schema)
+	schema = s.schemaForUpdate(id, schema)
 
 	fm, ok := schema.Fields.Find(f.Name)
 	if ok {
@@ -124,12 +119,7 @@ func (s *metricSchemaStore) genTagKeyID(id metric.ID, tagKey []byte, limits *mod
 	s.lock.Lock()
 	defer s.lock.Unlock()
 
-	if schema == nil {
-		// create new schema
-		schema = &metric.Schema{}
-	}
-	// put into schema if schema not exist under mutable store
-	s.mutable.PutIfNotExist(uint32(id), schema)
+	schema = s.schemaForUpdate(id, schema)
 
 	tm, ok := schema.TagKeys.Find(strutil.ByteSlice2String(tagKey))
 	if ok {
@@ -146,6 +136,32 @@ func (s *metricSchemaStore) genTagKeyID(id metric.ID, tagKey []byte, limits *mod
 	}
 	schema.TagKeys = append(schema.TagKeys, tm)
 	return tm.ID, nil
+}
+
+// schemaForUpdate returns the schema which can be modified(caller must hold the lock), schema is the result of
+// the caller's lookup without the lock.
+func (s *metricSchemaStore) schemaForUpdate(id metric.ID, schema *metric.Schema) *metric.Schema {
+	key := uint32(id)
+	if registered, ok := s.mutable.Get(key); ok {
+		// maybe registered by another goroutine after caller's lookup, a change of any other schema would be lost
+		return registered
+	}
+	if s.immutable != nil {
+		if flushing, ok := s.immutable.Get(key); ok {
+			// never modify a schema which is being flushed: a new tag key/field would be written without the
+			// sequence being synced for it, or marked as persisted without being written.
+			schema = &metric.Schema{
+				Fields:  append(field.Metas{}, flushing.Fields...),
+				TagKeys: append(tag.Metas{}, flushing.TagKeys...),
+			}
+		}
+	}
+	if schema == nil {
+		// create new schema
+		schema = &metric.Schema{}
+	}
+	s.mutable.Put(key, schema)
+	return schema
 }
 
 // getSchemaFromKV gets schema from kv store.
@@ -236,8 +252,17 @@ func (s *metricSchemaStore) Flush() error {
 
 	s.lock.Lock()
 	// mark schema persisted
-	_ = s.immutable.WalkEntry(func(_ uint32, value *metric.Schema) error {
+	_ = s.immutable.WalkEntry(func(key uint32, value *metric.Schema) error {
 		value.MarkPersisted()
+		if copied, ok := s.mutable.Get(key); ok && copied != value {
+			// copied from flushing schema(see schemaForUpdate), it starts with the same fields/tag keys
+			for idx := 0; idx < len(value.Fields) && idx < len(copied.Fields); idx++ {
+				copied.Fields[idx].Persisted = true
+			}
+			for idx := 0; idx < len(value.TagKeys) && idx < len(copied.TagKeys); idx++ {
+				copied.TagKeys[idx].Persisted = true
+			}
+		}
 		return nil
 	})
 	s.immutable = nil
